@@ -139,8 +139,9 @@ def run_history(case):
             if adv:
                 await asyncio.sleep(adv * TICK)
             t = round((vclock.Clock.now - vclock.BASE) / TICK)
+            before = list(mem.store)
             r = await apply(target, c)
-            steps.append([t, c, r, list(mem.store)])
+            steps.append([t, c, r, list(mem.store), before])
         try:
             await (cache.close() if case["facade"] else mem.close())
         except Exception:  # the purge task died with an exception: observable, never allowed by the model
@@ -151,10 +152,21 @@ def run_history(case):
 
 def to_coq(case, obs):
     h, o = [], []
-    for t, c, r, order in obs["steps"]:
+    for t, c, r, order, *_ in obs["steps"]:
         h.append((Z(t), cmd_to_coq(c)))
         o.append((res_to_coq(c, r), None if order is None else Some([S(k) for k in order])))
     return C("CMem", Nat(case["size"]), h, o)
+
+
+def to_coq_lru(case, obs):
+    h, o, b = [], [], []
+    for st in obs["steps"]:
+        t, c, r, order = st[:4]
+        before = st[4] if len(st) > 4 else None
+        h.append((Z(t), cmd_to_coq(c)))
+        o.append((res_to_coq(c, r), None if order is None else Some([S(k) for k in order])))
+        b.append(None if before is None else Some([S(k) for k in before]))
+    return C("CLru", Nat(case["size"]), h, o, b)
 
 
 def gen_history(rng, nkeys, nevents, ttl_weights=True):
